@@ -73,6 +73,12 @@ func genURLPathShape(t *rapid.T, shape string) string {
 	}
 	upper := func() {
 		i := one()
+		if segs[i] == "" || segs[i] == "." || segs[i] == ".." {
+			i = 0 // the first drawn segment is always a name
+			for segs[i] == "" || segs[i] == "." || segs[i] == ".." {
+				i++
+			}
+		}
 		if rapid.Bool().Draw(t, "whole") {
 			segs[i] = strings.ToUpper(segs[i])
 		} else {
